@@ -32,6 +32,8 @@ class Contract:
     group: str = ""
     trusted: bool = False       # assumed, body not verified (listed in trusted_base)
     note: str = ""
+    func: str = ""              # qualname of the function whose body is verified (default: qualname)
+    variant: str = ""           # e.g. "relaxed": a second contract of the same function for another receiver class
 
 
 @dataclass
@@ -198,10 +200,11 @@ class Registry:
 
     # ---- decorators
     def contract(self, relpath: str, qualname: str, props: Sequence[str] = (), group: str = "",
-                 trusted: bool = False, note: str = ""):
+                 trusted: bool = False, note: str = "", variant: str = ""):
         def deco(fn):
-            self.contracts[(relpath, qualname)] = Contract(relpath, qualname, fn, tuple(props), group,
-                                                           trusted, note)
+            key = qualname + ("@" + variant if variant else "")
+            self.contracts[(relpath, key)] = Contract(relpath, key, fn, tuple(props), group, trusted, note,
+                                                      func=qualname, variant=variant)
             return fn
         return deco
 
@@ -234,16 +237,25 @@ class Registry:
             self.transparent.add((relpath, q))
 
     # ---- lookup
-    def lookup(self, info: FuncInfo, ex=None) -> Optional[Contract]:
+    def lookup(self, info: FuncInfo, ex=None, bound: Any = None, st: Any = None) -> Optional[Contract]:
         key = (info.relpath, info.qualname)
         if key in self.disabled:
             return None
+        hook = getattr(self, "variant_hook", None)
+        if hook is not None and bound is not None and ex is not None:
+            var = hook(ex, info, bound, st)
+            if var and (info.relpath, info.qualname + "@" + var) in self.contracts:
+                return self.contracts[(info.relpath, info.qualname + "@" + var)]
         return self.contracts.get(key)
 
     def is_transparent(self, info: FuncInfo) -> bool:
         return (info.relpath, info.qualname) in self.transparent
 
-    def lookup_invariant(self, info: FuncInfo, loop: int) -> Optional[Invariant]:
+    def lookup_invariant(self, info: FuncInfo, loop: int, ex=None) -> Optional[Invariant]:
+        var = getattr(ex, "variant", "") if ex is not None else ""
+        if var and getattr(ex, "current_info", None) is not None and ex.current_info.qualname == info.qualname \
+                and ex.current_info.relpath == info.relpath:
+            return self.invariants.get((info.relpath, info.qualname + "@" + var, loop))
         return self.invariants.get((info.relpath, info.qualname, loop))
 
     # ---- call-site application
@@ -495,7 +507,7 @@ class FuncResult:
 def verify_function(repo: Repo, ct: M.ClassTable, reg: Registry, con: Contract,
                     mutate: Optional[Callable[[FuncInfo], FuncInfo]] = None) -> FuncResult:
     from .executor import Exec
-    info = repo.func(con.relpath, con.qualname)
+    info = repo.func(con.relpath, con.func or con.qualname)
     if mutate is not None:
         info = mutate(info)
     fr = FuncResult(con.relpath, con.qualname, info.sha256)
@@ -505,6 +517,7 @@ def verify_function(repo: Repo, ct: M.ClassTable, reg: Registry, con: Contract,
         ex.extra_axioms += fn_(ct)
     fr.ex = ex
     ex.current_info = info
+    ex.variant = con.variant
     st = State()
     st.ph = z3.Const("ph0", z3.ArraySort(Obj, M.SeqObj))
     st.alloc = z3.Int("alloc0")
